@@ -348,7 +348,7 @@ func RunParent(c Check, o Options) int {
 				cmd.Stderr = logf
 				cmd.Env = append(os.Environ(), "GOTRACEBACK=all")
 				if rc, ok := c.(Race); ok && rc.WantsRace() {
-					cmd.Env = append(cmd.Env, "GORACE=halt_on_error=0 log_path="+filepath.Join(scratch, "race"))
+					cmd.Env = append(cmd.Env, "GORACE=halt_on_error=0 exitcode=0 log_path="+filepath.Join(scratch, "race"))
 				}
 				werr := cmd.Run()
 				logf.Close()
